@@ -72,8 +72,8 @@ def gen_case(rng, params):
             ops.append(f"rup:L{hx(rng.choice([b'xx', b'zz']))}:{t}")
         else:
             ops.append(f"rut:{t}")
-        if opened and rng.random() < 0.15:
-            ops.append("ds-"); opened -= 1
+        if opened and rng.random() < 0.25:
+            ops.append(rng.choice(["ds-", "ds-!"])); opened -= 1
     return g.case_line(chunk, params["sendSliceSize"], g.script_wire(ticks, pieces), [], ops)
 
 
